@@ -288,6 +288,28 @@ func genC07(r *Rng, tier string, emit func(Case)) {
 				e("bechdec", "long", hx(append(m, bytes.Repeat([]byte("q"), r.Intn(10))...)))
 			}
 		}
+		// strings with a VALID checksum (built by the independent spec encoder, not by the code under test) that must be
+		// rejected for another reason: longer than 90 characters, an hrp character outside 33..126, an empty hrp, or that
+		// sit exactly on the limit (90 characters: accepted)
+		if r.Intn(8) == 0 {
+			mk := func(h string, n int) string {
+				d := r.Bytes(n)
+				for j := range d {
+					d[j] &= 31
+				}
+				return h + "1" + symsToString(specBechEncode(h, d))
+			}
+			h := "ab"
+			e("bechdec", "spec:len90", hs(mk(h, 90-len(h)-1-6)))
+			e("bechdec", "spec:len91", hs(mk(h, 91-len(h)-1-6)))
+			e("bechdec", "spec:len120", hs(mk(h, 120-len(h)-1-6)))
+			e("bechdec", "spec:hrp-space", hs(mk("a b", 8)))
+			e("bechdec", "spec:hrp-del", hs(mk("a\x7fb", 8)))
+			e("bechdec", "spec:hrp-high", hs(mk("a\x80b", 8)))
+			e("bechdec", "spec:hrp-empty", hs(mk("", 8)))
+			e("bechdec", "spec:hrp-upper", hs(mk("Ab", 8)))
+			e("bechdec", "spec:data-short", hs("ab1"+symsToString(specBechEncode("ab", nil))[1:]))
+		}
 		// boundary shapes of the human-readable part: empty (separator first), one character, a character just outside 33..126
 		if r.Intn(6) == 0 {
 			if se, err := bech32.Encode("", append([]byte{}, data...)); err == nil {
